@@ -26,6 +26,7 @@ type Param struct {
 
 // Method is one controller method with its annotations.
 type Method struct {
+	ValueRecv   bool     `json:"value_recv,omitempty"`   // func (c Ctl) instead of func (c *Ctl)
 	GroupParams bool     `json:"group_params,omitempty"` // write consecutive same-typed parameters as one declaration
 	Name        string   `json:"name"`
 	Verb        string   `json:"verb"`  // "" = no @Method annotation
@@ -201,7 +202,11 @@ func renderMethod(sb *strings.Builder, c Controller, m Method) {
 	default:
 		sig = " (" + strings.Join(rets, ", ") + ")"
 	}
-	fmt.Fprintf(sb, "func (c *%s) %s(%s)%s {\n", recv, m.Name, strings.Join(ps, ", "), sig)
+	star := "*"
+	if m.ValueRecv {
+		star = ""
+	}
+	fmt.Fprintf(sb, "func (c %s%s) %s(%s)%s {\n", star, recv, m.Name, strings.Join(ps, ", "), sig)
 	if m.Body != "" {
 		sb.WriteString(m.Body)
 	} else {
